@@ -246,7 +246,7 @@ End Script.
     of three statements with an irregular separator layout parses to three statements. *)
 Definition mk (t : token) : twl := {| tok := t; line := 1; col := 1 |}.
 Example script_example :
-  let d := {| d_tc := false; d_proj_tc := false; d_reserved := [] |} in
+  let d := mk_dial false false [] in
   let commit := mk (TWord (s2l "COMMIT") None (s2l "COMMIT")) in
   let semi_ := mk (TP PSemi) in
   let sp := mk (TWs 0) in
